@@ -183,6 +183,10 @@ def absv(a):
     return fn("abs", a)
 
 
+def atan2(y, x):
+    return E("atan2", wrap(y), wrap(x))
+
+
 PI = E("k", "pi")  # the symbolic constant pi (sympy.pi on FormaK's side; the double M_PI / numpy.pi in the specification)
 
 
@@ -208,6 +212,9 @@ def diff(e: E, x: str) -> E:
         return C(0)
     if op == "v":
         return C(1) if e.args[0] == x else C(0)
+    if op == "atan2":
+        y, x_ = e.args
+        return div(add(mul(x_, diff(y, x)), neg(mul(y, diff(x_, x)))), add(mul(x_, x_), mul(y, y)))
     if op == "pw":  # away from the switching surface c == 0 (callers exclude it)
         return pw(e.args[0], diff(e.args[1], x), diff(e.args[2], x))
     if op == "max":
@@ -276,6 +283,8 @@ def to_sympy(e: E, symtab):
         return sympy.Float(v)
     if op == "v":
         return symtab[e.args[0]]
+    if op == "atan2":
+        return sympy.atan2(to_sympy(e.args[0], symtab), to_sympy(e.args[1], symtab))
     if op == "k":
         return sympy.pi
     if op == "max":
@@ -307,6 +316,8 @@ def to_z3(e: E, env, denoms=None, domain=None):
         return qval(e.args[0])
     if op == "v":
         return env[e.args[0]]
+    if op == "atan2":
+        return uf("atan2", 2)(to_z3(e.args[0], env, denoms, domain), to_z3(e.args[1], env, denoms, domain))
     if op == "k":
         return qval(math.pi)
     if op in ("max", "min", "pw"):
@@ -363,6 +374,8 @@ def evalf(e: E, env):
         return float(e.args[0])
     if op == "v":
         return float(env[e.args[0]])
+    if op == "atan2":
+        return math.atan2(evalf(e.args[0], env), evalf(e.args[1], env))
     if op == "k":
         return math.pi
     if op == "max":
@@ -424,6 +437,8 @@ def from_sympy(s):
         raise NotImplementedError(f"pow {s}")
     if isinstance(s, (sympy.sin, sympy.cos, sympy.exp)):
         return fn(type(s).__name__, from_sympy(s.args[0]))
+    if isinstance(s, sympy.atan2):
+        return atan2(from_sympy(s.args[0]), from_sympy(s.args[1]))
     if isinstance(s, sympy.tan):
         return tan(from_sympy(s.args[0]))
     raise NotImplementedError(f"from_sympy: {type(s)} {s}")
